@@ -8,6 +8,7 @@ import (
 	"sort"
 	"strings"
 	"testing"
+	"time"
 )
 
 // RunReplay replays every counterexample file listed in $VERIF_CEX (separated by ':') against the
@@ -39,7 +40,14 @@ func RunReplay(t *testing.T, harnesses map[string]func()) {
 		n := c.RepeatCount()
 		for i := 0; i < n; i++ {
 			r := Begin(c)
-			r.Run(h)
+			// watchdog: a harness that does not come back (a hang is what some counterexamples predict)
+			finished := make(chan bool, 1)
+			go func() { r.Run(h); finished <- true }()
+			select {
+			case <-finished:
+			case <-time.After(20 * time.Second):
+				r.Failed = append(r.Failed, "hang:no-return-within-20s")
+			}
 			for l := range r.Reached {
 				reached[l] = true
 			}
